@@ -649,4 +649,88 @@ Proof.
     destruct (IH _ _ I1 L1 N1 HF2 H) as (I2 & L2 & N2 & Q2).
     split; [exact I2|]. split; [exact L2|]. split; [exact N2|]. rewrite Q2. exact Hl.
 Qed.
+
+Lemma subsidy_zero : forall h, (0 <? subsidy h) = false -> subsidy h = 0.
+Proof. intros h H. destruct (N.ltb_spec 0 (subsidy h)); [discriminate|lia]. Qed.
+
+Lemma index_block_sat : forall h blk st st',
+  SIs st -> block_ok3 blk -> index_block cfg h blk st = Ok st' -> SIs st'.
+Proof.
+  intros h blk st st' [SD SE SK SO SN] BO H.
+  pose proof (index_block_off cfg _ _ _ _ SO H) as HOff'.
+  unfold index_block in H. rewrite HS, HF0 in H.
+  replace (0 <=? h) with true in H by (symmetry; apply N.leb_le; lia). cbv iota in H.
+  dbind H. rename a into cb. dbind H. rename a into b1. dbind H. rename a into b2. inv H.
+  match type of E0 with index_txs _ _ _ _ ?B = _ => set (b0 := B) in * end.
+  assert (HC0 : ranges_size cb = subsidy h).
+  { destruct (0 <? subsidy h) eqn:Q.
+    - dbind E. inv E. cbn. lia.
+    - inv E. cbn. symmetry. apply subsidy_zero. exact Q. }
+  assert (I0 : SI cfg b0).
+  { subst b0. split; cbn; auto. intros f s []. }
+  assert (HX : DomIff (b_next b2) (s_entries (b_st b2)) /\
+               EntInv (s_entries (b_st b2)) (s_utxo (b_st b2)) (b_lost_ranges b2) /\
+               KeyU (s_entries (b_st b2)) (s_utxo (b_st b2)) /\ NullR (s_utxo (b_st b2)) (s_lost st)).
+  { destruct blk as [|t0 r].
+    - cbn [tl] in E0. cbn in E0. inv E0. inv E1. subst b0. cbn. auto.
+    - cbn [tl] in E0. destruct BO as [[B1 B2] B3].
+      destruct (index_txs_sat h r b0 b1 I0) as (I1 & L1 & N1 & Q1); auto.
+      destruct (index_tx_sat_cb cfg HS h t0 b1 b2 I1 L1 N1 B1 B2 E1) as (D2 & E2 & K2 & _ & N2).
+      rewrite Q1 in N2. subst b0. cbn [b_lost] in N2. auto. }
+  destruct HX as (D2 & E2 & K2 & N2).
+  assert (Hnx : next_seq_of (s_entries (b_st b2)) = b_next b2) by (apply next_seq_of_dom; exact D2).
+  split; cbn [s_entries s_utxo s_lost]; rewrite ?Hnx; auto.
+  - (* EntInv *)
+    destruct (b_lost_ranges b2) as [|p l] eqn:LR; [exact E2|].
+    intros op u Hu Hne s off Hp. rewrite tgP_set in Hu. destruct (pair_eqb op null_op) eqn:Q.
+    + apply pair_eqb_eq in Q. subst op. inv Hu. cbn [u_insc] in Hp. unfold eranges. change (is_null null_op) with true. cbv iota.
+      cbn [u_ranges]. rewrite app_nil_r.
+      destruct (tgP null_op (s_utxo (b_st b2))) as [e0|] eqn:T; [|cbn in Hp; contradiction].
+      specialize (E2 null_op e0 T Hne s off Hp). unfold eranges in E2. change (is_null null_op) with true in E2. exact E2.
+    + specialize (E2 op u Hu Hne s off Hp). unfold eranges in *.
+      assert (Hnn : is_null op = false) by (unfold is_null; exact Q). rewrite Hnn in *. exact E2.
+  - (* KeyU *)
+    destruct (b_lost_ranges b2) as [|p l] eqn:LR; [exact K2|].
+    intros op u s off Hu Hp. rewrite tgP_set in Hu. destruct (pair_eqb op null_op) eqn:Q.
+    + apply pair_eqb_eq in Q. subst op. inv Hu. cbn [u_insc] in Hp.
+      destruct (tgP null_op (s_utxo (b_st b2))) as [e0|] eqn:T; [|cbn in Hp; contradiction]. eapply K2; eauto.
+    + eapply K2; eauto.
+  - (* NullR *)
+    unfold NullR in *. destruct (b_lost_ranges b2) as [|p l] eqn:LR.
+    + cbn. rewrite N.add_0_r. exact N2.
+    + unfold entry_at at 1. rewrite tgP_set, pair_eqb_refl. cbn [u_ranges]. rewrite ranges_size_app.
+      unfold entry_at in N2. rewrite N2. reflexivity.
+Qed.
+
+Lemma index_chain_sat : forall c h st st',
+  SIs st -> Forall block_ok3 c -> index_chain cfg h c st = Ok st' -> SIs st'.
+Proof.
+  intros c. induction c as [|blk r IH]; intros h st st' HI BO H; cbn [index_chain] in H.
+  - inv H. exact HI.
+  - dbind H. apply Forall_cons_iff in BO. destruct BO as [B1 B2].
+    eapply IH; [|exact B2|exact H]. eapply index_block_sat; eauto.
+Qed.
+
+Lemma SIs_empty : SIs empty_state.
+Proof.
+  split; cbn.
+  - intro s. split; [intro H; exfalso; apply H; reflexivity | lia].
+  - intros op u Hu. discriminate.
+  - intros op u s off Hu. discriminate.
+  - intros op u [].
+  - reflexivity.
+Qed.
+
+Theorem sat_invariant : forall c st,
+  Forall block_ok3 c -> index_chain cfg 0 c empty_state = Ok st ->
+  forall op u, tget pair_eqb op (s_utxo st) = Some u -> op <> unbound_op ->
+  forall s off, In (s, off) (u_insc u) ->
+  forall e n, tget N.eqb s (s_entries st) = Some e -> i_sat e = Some n ->
+    calc_sat_in (u_ranges u) 0 off = Ok n.
+Proof.
+  intros c st BO H op u Hu Hne s off Hp e n He Hn.
+  destruct (index_chain_sat c 0 empty_state st SIs_empty BO H) as [_ SE _ _ _].
+  specialize (SE op u Hu Hne s off Hp e n He Hn). unfold eranges in SE. destruct (is_null op); auto.
+  rewrite app_nil_r in SE. exact SE.
+Qed.
 End SatChain.
